@@ -4,10 +4,16 @@ package splitcarfetcher
 // byte-function remote instead of HTTP: offset >= size => EOF, a read reaching past the end is refused.
 
 import (
+	"bytes"
+	"context"
 	"errors"
+	"fmt"
 	"io"
 	"net/http"
+	"net/http/httptest"
+	"strconv"
 	"testing"
+	"time"
 
 	rangecache "github.com/rpcpool/yellowstone-faithful/range-cache"
 	"github.com/rpcpool/yellowstone-faithful/zzverif/vt"
@@ -88,6 +94,122 @@ func TestVerifC17ReadAt(t *testing.T) {
 			}
 			o.Calls = append(o.Calls, c)
 		}
+		out.Emit(o)
+	}
+}
+
+// TestVerifC17HTTP: the same wrapper over a real HTTP remote (loopback httptest server) whose behaviour is switched
+// between calls: healthy range server, 503 with an error page, a body shorter than the requested range, an empty 200,
+// a server that ignores Range and sends the whole file, a dropped connection.  `up` = the server was healthy during the call.
+func TestVerifC17HTTP(t *testing.T) {
+	out := vt.Out(t)
+	defer out.Close()
+	rng := vt.Rand()
+	size := int64(2000 + rng.Intn(300))
+	file := make([]byte, size)
+	for i := range file {
+		file[i] = c17ByteAt(int64(i))
+	}
+	mode := "ok"
+	srv := httptest.NewServer(http.HandlerFunc(func(w http.ResponseWriter, r *http.Request) {
+		if r.Method == "HEAD" {
+			w.Header().Set("Content-Length", strconv.FormatInt(size, 10))
+			w.Header().Set("Accept-Ranges", "bytes")
+			return
+		}
+		switch mode {
+		case "ok":
+			http.ServeContent(w, r, "f", time.Time{}, bytes.NewReader(file))
+		case "503":
+			w.WriteHeader(503)
+			w.Write(bytes.Repeat([]byte("service unavailable "), 400))
+		case "short":
+			var a, b int64
+			fmt.Sscanf(r.Header.Get("Range"), "bytes=%d-%d", &a, &b)
+			if b >= size {
+				b = size - 1
+			}
+			n := (b - a + 1) / 2
+			w.Header().Set("Content-Range", fmt.Sprintf("bytes %d-%d/%d", a, a+n-1, size))
+			w.Header().Set("Content-Length", strconv.FormatInt(n, 10))
+			w.WriteHeader(206)
+			w.Write(file[a : a+n])
+		case "empty":
+			w.WriteHeader(200)
+		case "whole":
+			w.Header().Set("Content-Length", strconv.FormatInt(size, 10))
+			w.WriteHeader(200)
+			w.Write(file)
+		case "drop":
+			if hj, ok := w.(http.Hijacker); ok {
+				c, _, _ := hj.Hijack()
+				c.Close()
+			}
+		}
+	}))
+	defer srv.Close()
+	for k, bad := range []string{"503", "short", "empty", "whole", "drop"} {
+		mode = "ok"
+		rr, _, err := NewRemoteHTTPFileAsIoReaderAt(context.Background(), srv.URL+"/f")
+		o := c17Obs{Kind: "readat", Case: 100 + k, Size: size, Nontriv: true}
+		if err != nil {
+			o.Fatal = "open: " + err.Error()
+			out.Emit(o)
+			continue
+		}
+		steps := 36
+		if bad == "drop" {
+			steps = 14
+		}
+		for step := 0; step < steps; step++ {
+			switch {
+			case step%6 == 2 || step%6 == 3:
+				mode = bad
+			default:
+				mode = "ok"
+			}
+			if bad == "drop" && step%6 == 3 {
+				mode = "ok"
+			}
+			l := int64(1 + rng.Intn(300))
+			off := int64(rng.Intn(int(size - l)))
+			if step%6 >= 4 {
+				// after the remote recovered: reads nested in / overlapping the range that failed just before
+				prev := o.Calls[len(o.Calls)-1]
+				off, l = prev.S+int64(rng.Intn(3)), prev.L-int64(rng.Intn(3))-2
+				if l < 1 {
+					l = 1
+				}
+				if off+l > size {
+					off = size - l
+				}
+			}
+			c := c17Call{Op: "readat", S: off, L: l, Up: mode == "ok", Bytes: []int{}}
+			if p := vt.Guard(func() {
+				buf := make([]byte, l)
+				for i := range buf {
+					buf[i] = 0xEE
+				}
+				n, err := rr.ReadAt(buf, off)
+				c.N = n
+				for _, b := range buf[:n] {
+					c.Bytes = append(c.Bytes, int(b))
+				}
+				switch {
+				case err == nil:
+					c.Res = "ok"
+				case err == io.EOF: // (a transport error that merely wraps EOF is an error, not the end of the file)
+					c.Res = "eof"
+				default:
+					c.Res, c.Err = "err", err.Error()
+				}
+			}); p != "" {
+				c.Res, c.Err = "panic", p
+			}
+			c.Err = bad + ": " + c.Err
+			o.Calls = append(o.Calls, c)
+		}
+		rr.Close()
 		out.Emit(o)
 	}
 }
